@@ -102,6 +102,63 @@ def gen(tier, rng, harness=None):
     return lines
 
 
+def extra(res, findings, tier, rng, harness, driver):
+    """LLVM 14's own PARSER (llvm-as -disable-verify: numbering is checked while parsing, the verifier is not needed) as the reference: (a) the model's
+    verdict on an explicit numbering (`parseAssign`, proved equivalent to LLVMSpec.agreesFrom) must be LLVM's verdict; (b) what llir prints for an
+    accepted shape must be accepted by LLVM"""
+    from . import llvmref
+    if not llvmref.available():
+        return {"llvm_reference": {"available": False}}
+    shapes = [" ".join(gen_func(rng, wrong_p=rng.choice([0, 0.15, 0.3]))) for _ in range(250 if tier == "quick" else 5000)]
+    model = C.run_lines([driver], ["num.parse " + s_ for s_ in shapes], shards=8)
+    texts = C.run_lines([harness, "run"], ["num.text " + s_ for s_ in shapes], shards=8)
+    from concurrent.futures import ThreadPoolExecutor
+    def quirk(shape):
+        # LLVM 14's parameter-list parser does not count a NAMELESS FIRST parameter (`define void @f(i32, i32 %0)` is accepted and its second
+        # parameter is %1; `(i32, i32 %1)` is rejected; `(i32 %a, i32, i32 %1)` is fine): llir numbers positionally, like LLVM everywhere else.
+        ps = [t for t in shape.split() if t.startswith("P:")]
+        return bool(ps) and ps[0] == "P:i" and any(t.startswith("P:e") for t in ps[1:])
+    def work(i):
+        p = texts[i].split()
+        if len(p) != 2:
+            return ("skipped", None)
+        if quirk(shapes[i]):
+            return ("excluded-llvm14-nameless-first-parameter", None)
+        src = bytes.fromhex(p[0]).decode("latin-1")
+        _, st, msg = llvmref.assemble(src, verify=False)
+        if st == "crash":
+            return ("reference-crash", None)
+        want_ok = model[i].startswith("ok")
+        if (st == "ok") != want_ok:
+            # only numbering verdicts count: other parser errors of LLVM (none expected in these shapes) are reported as they are
+            return ("verdict-differs", (shapes[i], "model %s, LLVM %s %s" % (model[i][:40], st, msg), src))
+        if st == "ok" and p[1] != "-":
+            _, st2, msg2 = llvmref.assemble(bytes.fromhex(p[1]).decode("latin-1"), verify=False)
+            if st2 == "invalid":
+                return ("printed-rejected", (shapes[i], msg2, bytes.fromhex(p[1]).decode("latin-1")))
+        return ("agree-accept" if want_ok else "agree-reject", None)
+    with ThreadPoolExecutor(16) as ex:
+        out = list(ex.map(work, range(len(shapes))))
+    stats = {}
+    for k, b in out:
+        stats[k] = stats.get(k, 0) + 1
+        if b and k == "verdict-differs":
+            res.violation("the numbering model (parseAssign = LLVMSpec.agreesFrom, the rule the theorems are stated against) disagrees with LLVM 14's parser on `%s`: %s" % (b[0], b[1]),
+                          {"ops": ["num.parse " + b[0]], "llvm_input": b[2], "reference": "llvm-as-14 -disable-verify"}, found_input=False)
+        if b and k == "printed-rejected":
+            res.violation("LLVM 14 rejects the numbering llir prints for shape `%s`: %s" % (b[0], b[1]), {"ops": ["!num.check " + b[0]], "printed": b[2], "reference": "llvm-as-14 -disable-verify"})
+    # the recorded quirk is re-run on every run: LLVM accepts the witness, llir rejects it
+    for f in findings.data["findings"]:
+        if f["property"] == "C08" and f.get("class") == "llvm-reference" and f.get("input"):
+            _, st, _ = llvmref.assemble(f["input"], verify=False)
+            o = C.run_lines([harness, "run"], ["mod.outcome - " + f["input"].encode().hex()])[0]
+            if st == "ok" and o == "error":
+                res.known[f["id"]] = (1 + stats.get("excluded-llvm14-nameless-first-parameter", 0), f["what"])
+            elif st != "crash":
+                res.violation("the recorded finding %s no longer reproduces as recorded (LLVM %s, llir %s)" % (f["id"], st, o), {"ops": [], "input": f["input"]}, found_input=False)
+    return {"llvm_reference": dict(stats, available=True, shapes=len(shapes), tool="llvm-as-14 -disable-verify")}
+
+
 def nontrivial(ln, model_out):
     return sum(1 for t in ln.split()[1:] if t.endswith(":i") or ":e" in t or t.endswith(":u")) >= 2
 
